@@ -7,6 +7,7 @@ package main
 //    running maximum (admissibility).   R3 weights/totals.   R4 symmetric links.
 
 import (
+	"fmt"
 	"go/ast"
 	"go/token"
 	"go/types"
@@ -18,7 +19,7 @@ const gonumPath = "gonum.org/v1/gonum/graph/path"
 
 func checkC19(c *Ctx) {
 	c.Rule("C19.R1", "at every call of gonum path.AStar the static type of the graph argument implements path.Weighted (Weight(xid, yid int64) (float64, bool)) — the optional interface AStar asserts before falling back to unit edge costs")
-	c.Rule("C19.R2", "in the heuristic passed to AStar, a network field used as divisor of a distance is maintained as a running maximum of link speeds (stores guarded by new > old or math.Max; initial value not above any speed)")
+	c.Rule("C19.R2", "in the heuristic passed to AStar, a network field used as divisor of a distance is maintained as a running maximum of link speeds (stores guarded by new > old or math.Max; initial value not above any speed); every value the heuristic returns is 0, the straight-line distance between the two nodes (when minimising distance) or that distance over the maximum speed (when minimising time) — the only estimates here that are lower bounds of every route's cost")
 	c.Rule("C19.R3", "the weight of an edge is its time or length field according to the option switch (no numeric default); a link's time is its length divided by the speed argument; the route loop visits every consecutive node pair and sums length and time of the very edge it appends")
 	c.Rule("C19.R4", "every store neighbors[a][b] = e is paired with neighbors[b][a] = e")
 	p := c.P.Pkg("route")
@@ -123,13 +124,18 @@ func checkC19(c *Ctx) {
 			}
 		}
 	}
+	for _, h := range heuristics {
+		if fd := c.P.Decl(h); fd != nil {
+			c19heuristicReturns(c, info, p, h, fd)
+		}
+	}
 	if len(heuristics) == 0 {
 		c.OK("C19.R2", "route#heuristic", token.NoPos, "no heuristic is passed (null heuristic is admissible)")
 	}
 	c19weights(c, info, p, netT)
 	c19symmetric(c, info, p)
 	c.Floor("C19.R1", 1)
-	c.Floor("C19.R2", 1)
+	c.Floor("C19.R2", 3)
 	c.Floor("C19.R3", 3)
 	c.Floor("C19.R4", 1)
 }
@@ -498,5 +504,115 @@ func c19symmetric(c *Ctx, info *types.Info, p *pkgT) {
 	}
 	if n == 0 {
 		c.Unk("C19.R4", "route#neighbor-stores", token.NoPos, "no adjacency stores found")
+	}
+}
+
+// c19heuristicReturns: every return of the A* heuristic is a lower bound by construction.
+func c19heuristicReturns(c *Ctx, info *types.Info, p *pkgT, h *types.Func, fd *ast.FuncDecl) {
+	sc := newFnScope(info, fd.Body)
+	ps := paramVars(info, fd.Type)
+	timeC, distC := p.Types.Scope().Lookup("Time"), p.Types.Scope().Lookup("Distance")
+	mentions := func(e ast.Expr, o types.Object) bool {
+		found := false
+		ast.Inspect(e, func(n ast.Node) bool {
+			if id, ok := n.(*ast.Ident); ok && info.ObjectOf(id) == o {
+				found = true
+			}
+			return !found
+		})
+		return found
+	}
+	// straight: op.Distance(point of x, point of y)
+	var straight func(e ast.Expr, depth int) bool
+	straight = func(e ast.Expr, depth int) bool {
+		e = unparen(e)
+		if depth > 3 {
+			return false
+		}
+		if call, ok := e.(*ast.CallExpr); ok {
+			if isFuncIn(callee(info, call), modPath+"/op", "Distance") && len(call.Args) == 2 && len(ps) == 2 && ps[0] != nil && ps[1] != nil {
+				return (mentions(call.Args[0], ps[0]) && mentions(call.Args[1], ps[1])) || (mentions(call.Args[0], ps[1]) && mentions(call.Args[1], ps[0]))
+			}
+			return false
+		}
+		if o := objOf(info, e); o != nil {
+			ds := sc.defs[o]
+			if len(ds) == 0 {
+				return false
+			}
+			for _, d := range ds {
+				if d == nil || !straight(d, depth+1) {
+					return false
+				}
+			}
+			return true
+		}
+		return false
+	}
+	kind := func(e ast.Expr) string {
+		e = unparen(e)
+		if v := constOf(info, e); v != nil && v.String() == "0" {
+			return "zero"
+		}
+		if straight(e, 0) {
+			return "distance"
+		}
+		if b, ok := e.(*ast.BinaryExpr); ok && b.Op == token.QUO && straight(b.X, 0) {
+			if sel, ok := unparen(b.Y).(*ast.SelectorExpr); ok {
+				if sl := info.Selections[sel]; sl != nil {
+					if v, ok := sl.Obj().(*types.Var); ok && v.IsField() {
+						return "time" // the divisor field is judged by the running-maximum obligation
+					}
+				}
+			}
+		}
+		return ""
+	}
+	n := 0
+	ast.Inspect(fd.Body, func(nd ast.Node) bool {
+		if _, ok := nd.(*ast.FuncLit); ok {
+			return false
+		}
+		r, ok := nd.(*ast.ReturnStmt)
+		if !ok || len(r.Results) != 1 {
+			return true
+		}
+		n++
+		cons := fmt.Sprintf("%s#return:%s", c.P.FuncName(h), src(r.Results[0]))
+		k := kind(r.Results[0])
+		// which minimisation option is this return under?
+		opt := ""
+		for _, anc := range enclosing(fd.Body, r) {
+			if cc, ok := anc.(*ast.CaseClause); ok {
+				for _, e := range cc.List {
+					switch objOf(info, e) {
+					case timeC:
+						opt += "Time"
+					case distC:
+						opt += "Distance"
+					}
+				}
+			}
+		}
+		switch {
+		case k == "":
+			c.Bad("C19.R2", cons, r.Pos(), "the heuristic returns `%s`, which is not 0, the straight-line distance between the two nodes, or that distance over the maximum speed: nothing makes it a lower bound of the cheapest route's cost (a direct link's own weight, for example, exceeds a cheaper detour), so A* may settle the destination through a non-minimal route", src(r.Results[0]))
+		case k == "zero":
+			c.OK("C19.R2", cons, r.Pos(), "0 is a lower bound")
+		case k == "distance" && opt == "Distance":
+			c.OK("C19.R2", cons, r.Pos(), "minimising distance: the straight line is no longer than any chain of links")
+		case k == "time" && opt == "Time":
+			c.OK("C19.R2", cons, r.Pos(), "minimising time: straight-line distance over the maximum speed")
+		case k == "distance" && opt == "Time":
+			c.Bad("C19.R2", cons, r.Pos(), "when minimising time the heuristic returns a distance: for speeds above 1 it exceeds the true remaining time")
+		case k == "time" && opt == "Distance":
+			c.Bad("C19.R2", cons, r.Pos(), "when minimising distance the heuristic returns distance/speed: for maximum speeds below 1 it exceeds the true remaining distance")
+		default:
+			c.Unk("C19.R2", cons, r.Pos(), "return `%s` (%s) is not under a case of the minimisation option: cannot tell which cost it must bound", src(r.Results[0]), k)
+		}
+		return true
+	})
+	if n == 0 {
+		c.Unk("C19.R2", c.P.FuncName(h)+"#returns", fd.Pos(), "the heuristic has no return statement")
 	}
 }
